@@ -90,40 +90,10 @@ func compile(name string, pkgs []pk) {
 
 func main() {
 	_ = os.Args
-	compile("1 duplicated grants", []pk{{"github.com/verif/main", `APPLICATION main();
-ABSTRACT WORKSPACE BaseWs ( ROLE role1; TABLE Table1 INHERITS sys.CDoc (a int32); GRANT INSERT ON TABLE Table1 TO role1; );
-WORKSPACE W1 INHERITS BaseWs ();
-WORKSPACE W2 INHERITS BaseWs ();
+	compile("desc ref abstract", []pk{{"github.com/verif/main", `APPLICATION main();
+WORKSPACE W ( DESCRIPTOR ( x ref(A) ); ABSTRACT TABLE A INHERITS sys.CDoc (a int32); );
 `}})
-	compile("2 phantom table", []pk{{"github.com/verif/main", `IMPORT SCHEMA 'github.com/verif/pkg1';
-APPLICATION main( USE pkg1; );
-ALTER WORKSPACE pkg1.Ws0 ( TABLE T2 INHERITS sys.CDoc ( x ref(Foo) ); );
-`}, {"github.com/verif/pkg1", `ALTERABLE WORKSPACE Ws0 ( TABLE Foo INHERITS sys.CDoc (a int32); );
-`}})
-	compile("3 wrong fields", []pk{{"github.com/verif/main", `IMPORT SCHEMA 'github.com/verif/pkg1';
-APPLICATION main( USE pkg1; );
-WORKSPACE W INHERITS pkg1.Base ( TABLE Foo INHERITS sys.CDoc (mainfield int32); TABLE T INHERITS sys.CDoc ( r ref(pkg1.Foo) ); );
-`}, {"github.com/verif/pkg1", `ABSTRACT WORKSPACE Base ( TABLE Foo INHERITS sys.CDoc (pkg1field int32); );
-`}})
-	compile("4 descriptor ref", []pk{{"github.com/verif/main", `APPLICATION main();
-WORKSPACE W ( DESCRIPTOR ( x ref(Foo) NOT NULL, y ref(Foo), w ref ); TABLE Foo INHERITS sys.CDoc (a int32); TABLE T INHERITS sys.CDoc ( z ref(Foo) NOT NULL ); );
-`}})
-	compile("4b descriptor ref unknown", []pk{{"github.com/verif/main", `APPLICATION main();
-WORKSPACE W ( DESCRIPTOR ( x ref(NoSuch) NOT NULL ); );
-`}})
-	compile("5 cross-package multi-level", []pk{{"github.com/verif/main", `IMPORT SCHEMA 'github.com/verif/pkg1';
-APPLICATION main( USE pkg1; );
-WORKSPACE W INHERITS pkg1.Base ( TABLE T INHERITS pkg1.Mid (c int32); );
-`}, {"github.com/verif/pkg1", `ABSTRACT WORKSPACE Base ( ABSTRACT TABLE Root INHERITS sys.CDoc (a int32); ABSTRACT TABLE Mid INHERITS Root (b int32); );
-`}})
-	compile("5b qualified", []pk{{"github.com/verif/main", `IMPORT SCHEMA 'github.com/verif/pkg1';
-APPLICATION main( USE pkg1; );
-WORKSPACE W INHERITS pkg1.Base ( TABLE T INHERITS pkg1.Mid (c int32); );
-`}, {"github.com/verif/pkg1", `ABSTRACT WORKSPACE Base ( ABSTRACT TABLE Root INHERITS sys.CDoc (a int32); ABSTRACT TABLE Mid INHERITS pkg1.Root (b int32); );
-`}})
-	compile("5c ws chain unqualified", []pk{{"github.com/verif/main", `IMPORT SCHEMA 'github.com/verif/pkg1';
-APPLICATION main( USE pkg1; );
-WORKSPACE W INHERITS pkg1.Mid ( );
-`}, {"github.com/verif/pkg1", `ABSTRACT WORKSPACE Root ( ROLE r; ); ABSTRACT WORKSPACE Mid INHERITS Root ( );
+	compile("desc ref wdoc", []pk{{"github.com/verif/main", `APPLICATION main();
+WORKSPACE W ( DESCRIPTOR ( x ref(Wd) ); TABLE Wd INHERITS sys.WDoc (a int32); );
 `}})
 }
